@@ -272,22 +272,72 @@ func (e *lockEngine) flow(la *lockAnalysis, record bool) {
 	if !record {
 		return
 	}
+	may := e.flowMay(la)
 	for _, b := range fn.Blocks {
 		s, ok := la.in[b]
 		if !ok {
 			continue
 		}
 		s = s.clone()
+		sm := may[b].clone()
 		for _, in := range b.Instrs {
 			e.step(la, s, in, true)
+			e.step(la, sm, in, false)
 			if r, isRet := in.(*ssa.Return); isRet {
 				if !sameLocks(s, la.requires) {
 					la.problems = append(la.problems, fmt.Sprintf("at this return the function holds %s but held %s on entry (a lock is leaked or released for good)", s, la.requires))
 					la.probPos = append(la.probPos, r)
+					continue
+				}
+				// the must-set forgets a lock that is held on only some of the paths that join before
+				// the return: the may-set does not
+				for k := range sm {
+					if _, req := la.requires[k]; !req {
+						la.problems = append(la.problems, fmt.Sprintf("on some path to this return %s is still held (taken but not released on that path): the lock is leaked", k))
+						la.probPos = append(la.probPos, r)
+					}
 				}
 			}
 		}
 	}
+}
+
+// flowMay: forward may-lockset (union at joins): the locks that are held on at least one path.
+func (e *lockEngine) flowMay(la *lockAnalysis) map[*ssa.BasicBlock]lockSet {
+	fn := la.fn
+	in := map[*ssa.BasicBlock]lockSet{}
+	if len(fn.Blocks) == 0 {
+		return in
+	}
+	in[fn.Blocks[0]] = la.requires.clone()
+	work := []*ssa.BasicBlock{fn.Blocks[0]}
+	for len(work) > 0 {
+		b := work[0]
+		work = work[1:]
+		s := in[b].clone()
+		for _, i := range b.Instrs {
+			e.step(la, s, i, false)
+		}
+		for _, succ := range b.Succs {
+			cur, ok := in[succ]
+			if !ok {
+				in[succ] = s.clone()
+				work = append(work, succ)
+				continue
+			}
+			changed := false
+			for k, v := range s {
+				if cv, has := cur[k]; !has || (cv == 'R' && v == 'W') {
+					cur[k] = v
+					changed = true
+				}
+			}
+			if changed {
+				work = append(work, succ)
+			}
+		}
+	}
+	return in
 }
 
 // heldAt returns the lockset just before instruction at.
